@@ -54,15 +54,15 @@ type ForceSlot struct {
 // different documents depending on the document that contains it
 var docPool = map[string][]string{
 	"same":   {"file:///w/a/x.json", "file:///w/a/other.json"},
-	"sub":    {"file:///w/a/s/x.json", "file:///w/a/s/t/other.json"},
-	"parent": {"file:///w/x.json", "file:///other.json"},
-	"cousin": {"file:///w/b/x.json", "file:///w/b/c/other.json"},
-	"http":   {"http://h.example/d/x.json", "http://h.example/f/other.json"},
+	"sub":    {"file:///w/a/s/x.json", "file:///w/a/s/other.json"},
+	"parent": {"file:///w/x.json", "file:///w/other.json"},
+	"cousin": {"file:///w/b/x.json", "file:///w/b/other.json"},
+	"http":   {"http://h.example/d/x.json", "http://h.example/d/other.json"},
 }
 
 const RootURL = "file:///w/a/root.json"
 
-var hostileDefNames = []string{"a/b", "c~d", "e f", "g%h", "é", "x{y}", "~", "/", "a~1b", "q?r", "h#i", "%41"}
+var hostileDefNames = []string{"a/b", "c~d", "e f", "g%h", "é", "x{y}", "~", "/", "a~1b", "q?r", "h#i", "%41", "D0", "D1"}
 
 type slot struct {
 	doc    string
@@ -414,7 +414,7 @@ func GenWorld(r *rand.Rand, o WorldOpts) *World {
 			names = append(names, hostileDefNames[r.Intn(len(hostileDefNames))])
 			// a name and the text of its own escaped form side by side: a lookup that forgets to decode (or decodes twice)
 			// lands on the twin
-			twins := [][2]string{{"a/b", "a~1b"}, {"c~d", "c~0d"}, {"g%h", "g%25h"}, {"e f", "e%20f"}, {"~", "~0"}, {"/", "~1"}}
+			twins := [][2]string{{"a/b", "a~1b"}, {"c~d", "c~0d"}, {"g%h", "g%25h"}, {"e f", "e%20f"}, {"~", "~0"}, {"/", "~1"}, {"D0", "D1"}, {"Pet", "pet"}}
 			tw := twins[r.Intn(len(twins))]
 			names = append(names, tw[0], tw[1])
 			seen := map[string]bool{}
@@ -507,7 +507,13 @@ func GenWorld(r *rand.Rand, o WorldOpts) *World {
 		u := "file:///w/a/whole.json"
 		g.short[u] = "DW"
 		g.rank++
-		g.w.Docs[u] = g.schema(u, nil, 1, g.rank)
+		ws := g.schema(u, nil, 1, g.rank)
+		if r.Intn(2) == 0 {
+			// a stand-alone recursive schema: "#" designates the document that contains it, wherever it is imported from
+			ws["additionalProperties"] = map[string]interface{}{"$ref": "#"}
+			g.feature("whole-document-self-reference")
+		}
+		g.w.Docs[u] = ws
 		g.targets = append(g.targets, &target{doc: u, toks: nil, kind: "schema", rank: g.rank, top: true})
 	}
 	g.fillSlots()
